@@ -55,6 +55,7 @@ class GatewaySim:
         self._prev_on_send = prev if isinstance(getattr(prev, "__self__", None), GatewaySim) else None
         loop.on_send = self._on_send
         self.on_client_frame = None  # optional hook(body) -> True if handled
+        self.odd_cemi = False        # server_tunnelling_request: every fourth frame carries a cEMI octet string the library cannot parse
 
     # ------------------------------------------------------------------ recording
     def now(self) -> int:
@@ -307,6 +308,8 @@ class GatewaySim:
         from xknx.knxip import TunnellingRequest
 
         raw = bytes([0x29, 0, 0xBC, 0xE0, 0x11, 0x01, 0x09, 0x01, 0x01, 0x00, 0x80, cemi_id & 0xFF])
+        if self.odd_cemi and cemi_id % 4 == 3:      # a message code the library does not know, a single octet: still a frame of the tunnel
+            raw = bytes([0x5A, 0, cemi_id & 0xFF]) if cemi_id % 8 == 3 else bytes([cemi_id & 0xFF])
         self.deliver(TunnellingRequest(communication_channel_id=chan, sequence_counter=seq, raw_cemi=raw), delay)
 
     def server_disconnect(self, chan=None, delay: float = 0.0) -> None:
